@@ -395,9 +395,10 @@ def infra():
     return _infra
 
 
-SIZE_CAP = 70000          # quick tier; the thorough tier raises it (common.run_check)
+SIZE_CAP = (1 << 20) + 64          # quick tier; the thorough tier raises it (common.run_check)
 
 
-def size_hints(lo=64):
-    """size-like constants of the infrastructure modules within the tier's cap (see infra())"""
-    return [v for v in infra()['sizes'] if lo <= v <= SIZE_CAP]
+def size_hints(lo=64, hi=None):
+    """size-like constants of the infrastructure modules within the tier's cap (see infra()); hi: a lower cap where one
+    unit of the size is expensive (a thread, a rendered record)"""
+    return [v for v in infra()['sizes'] if lo <= v <= min(SIZE_CAP, hi or SIZE_CAP)]
